@@ -429,10 +429,11 @@ class Shared:
         from ..fprog.native import FFLAGS
         self.fl = ' '.join(FFLAGS)
         self.dir = harness.native().workdir('c28s')
-        self._w('kmod.f90', text)
-        self._w('drive.f90', drive_sub(driver))
-        self.p = subprocess.Popen(['sh', '-c', f'gfortran {self.fl} -c kmod.f90 drive.f90 2> cerr_0 && touch ok_0'], cwd=self.dir)
+        self.text = text
+        self.drive = drive_sub(driver)
+        self.cands = {}
         self.idxs = []
+        self.p = None
 
     def _w(self, name, text):
         with open(os.path.join(self.dir, name), 'w') as f:
@@ -446,7 +447,7 @@ class Shared:
             return ''
 
     def add(self, i, cand_text):
-        self._w(f'cand_{i}.f90', rename_modules(cand_text, i))
+        self.cands[i] = rename_modules(cand_text, i)
         self.idxs.append(i)
 
     def _sh(self, script, timeout=600):
@@ -465,6 +466,18 @@ class Shared:
 
     def results(self):
         """{index: Res}; stage 'compile' (candidate does not compile), 'run' or 'run-timeout'"""
+        # fast path: everything in ONE source file, one compiler invocation (the normal case: every candidate compiles)
+        allsrc = '\n'.join([self.text] + [self.cands[i] for i in self.idxs] + [self.drive, main_program(self.idxs)])
+        self._w('all.f90', allsrc)
+        self._sh(f'gfortran {self.fl} -o prog.x all.f90 2> aerr')
+        if os.path.exists(os.path.join(self.dir, 'prog.x')):
+            return self._run_all(list(self.idxs), {})
+        # slow path: separate files, to find out which candidate does not compile
+        self._w('kmod.f90', self.text)
+        self._w('drive.f90', self.drive)
+        self.p = subprocess.Popen(['sh', '-c', f'gfortran {self.fl} -c kmod.f90 drive.f90 2> cerr_0 && touch ok_0'], cwd=self.dir)
+        for i in self.idxs:
+            self._w(f'cand_{i}.f90', self.cands[i])
         if self.idxs:
             lst = '\\n'.join(str(i) for i in self.idxs)
             self._sh(f"printf '{lst}\\n' | xargs -P {self.PAR} -I@ sh -c "
@@ -488,6 +501,9 @@ class Shared:
         self._sh(f'gfortran {self.fl} -o prog.x main.f90 {objs} 2> lerr')
         if not ex('prog.x'):
             raise harness.GeneratorBug('shared executable does not link:\n' + self._r('lerr')[-1500:])
+        return self._run_all(good, out)
+
+    def _run_all(self, good, out):
         rc, so, se = self._run(-1, len(good) + 1)
         parts = {}
         if rc == 0:
@@ -513,7 +529,7 @@ class Shared:
     def close(self):
         import shutil
         try:
-            if self.p.poll() is None:
+            if self.p is not None and self.p.poll() is None:
                 self.p.kill()
         except Exception:  # noqa
             pass
@@ -534,6 +550,9 @@ def classify(orig_out, res):
 def confirm(files_name, text, cand_text, driver, state):
     """regular stand-alone builds (explicit interface); -> None | (class, detail) | ('ub', detail)"""
     from ..fprog.native import first_diff
+    cand = harness.native().build_run('cand', [(files_name, cand_text)], driver, timeout=Shared.RUN_TIMEOUT)
+    if cand.stage.startswith('compile') and state.get('orig_compiles'):
+        return 'candidate-does-not-compile', cand.err[-1200:]
     if 'orig' not in state:
         orig = harness.native().build_run('orig', [(files_name, text)], driver, timeout=Shared.RUN_TIMEOUT)
         orig.source = ([(files_name, text)], driver, None)
@@ -543,7 +562,6 @@ def confirm(files_name, text, cand_text, driver, state):
         raise harness.GeneratorBug('original program does not compile:\n' + orig.err[-1500:] + '\n---\n' + text)
     if not orig.ok:
         return 'ub', orig.brief()
-    cand = harness.native().build_run('cand', [(files_name, cand_text)], driver, timeout=Shared.RUN_TIMEOUT)
     if cand.stage.startswith('compile'):
         return 'candidate-does-not-compile', cand.err[-1200:]
     if not cand.ok:
@@ -618,7 +636,7 @@ def evaluate_program(spec, variants, rules=True):
     o0 = res[0]
     if o0.stage.startswith('compile'):
         raise harness.GeneratorBug('original program does not compile:\n' + o0.err[-1500:] + '\n---\n' + text)
-    state = {}
+    state = {'orig_compiles': True}
     vecs = o0.out.split('vector ')
     info['varied'] = len(set(v.split('\n', 1)[1] if '\n' in v else v for v in vecs[1:])) > 1
     for r in results:
@@ -745,7 +763,8 @@ def replay_source(case, ctx):
     except Exception as e:  # noqa
         ctx.reject('loki-timeout' if isinstance(e, LokiTimeout) else e, case)
         return []
-    bad = confirm('kmod.f90', text, cand, driver, {})
+    # (the original of a committed replay is known to compile; it is only built when the candidate compiles)
+    bad = confirm('kmod.f90', text, cand, driver, {'orig_compiles': True})
     if bad is None or bad[0] in ('ub', 'undef'):
         if bad is not None:
             raise harness.GeneratorBug(f'replay case is not a valid program: {bad}')
